@@ -69,6 +69,10 @@ def run(args, tier, target):
         d = os.path.join(SEEDED, sid)
         meta = json.load(open(os.path.join(d, "meta.json")))
         props = [meta["property"]] + list(meta.get("also", []))
+        if meta.get("obsolete_since"):
+            print(sid, "skipped (obsolete):", meta["obsolete_since"][:90])
+            results[sid] = {"applied": False, "obsolete": meta["obsolete_since"]}
+            continue
         rc, out = sh(["git", "-C", target, "apply", os.path.join(d, "patch.diff")])
         if rc != 0:
             print(sid, "PATCH DOES NOT APPLY", out[:200])
